@@ -1,6 +1,6 @@
 SPECIFICATION Spec
 CONSTANTS
-  Hack = {"undo", "pair"}
+  Hack = {"v2"}
   MaxWrap = 3
   MaxRows = 7
   Emit = FALSE
